@@ -629,6 +629,13 @@ func genC17(rng *hx.Rng, tier string, w *hx.Writer) error {
 		L := 5 + rng.Intn(6)
 		up := []bool{true, true, true}
 		var evs, wire []string
+		if it%3 == 0 {
+			// directed start: a request, the peer goes away and comes back, a request again
+			id := rng.Intn(3)
+			evs = append(evs, fmt.Sprintf("0.%d", id), fmt.Sprintf("2.%d", id), fmt.Sprintf("4.%d", id), fmt.Sprintf("0.%d", id))
+			wire = append(wire, hx.L(hx.Zi(0), hx.Zi(id), hx.Zi(1)), hx.L(hx.Zi(2), hx.Zi(id)), hx.L(hx.Zi(4), hx.Zi(id)), hx.L(hx.Zi(0), hx.Zi(id), hx.Zi(1)))
+			L += 4
+		}
 		for len(evs) < L {
 			id := rng.Intn(3)
 			switch k := rng.Intn(10); {
